@@ -131,6 +131,23 @@ func c04main(c *Ctx) {
 		// the other presentation flags must not matter for validity: any combination
 		otherFlags := randomOtherFlags(r)
 		lg := newRoot(cs.name, FJSON, w, slog.AlwaysLevel)
+		// a second destination IN FRONT of the recording one, in both classes: one that takes half of every payload
+		// without reporting an error, or one that fails (the library then issues a diagnostic record of its own to the
+		// warning destinations - a JSON record like any other, judged below)
+		front := ""
+		switch idx % 8 {
+		case 3:
+			front = "short"
+		case 6:
+			front = "failing"
+		}
+		if front != "" {
+			fw := mon.New(log, "FRONT", mon.ShapePlain)
+			fw.Core().Fail = func(_ int, p []byte) (bool, int) { return front == "failing", len(p) / 2 }
+			lg.SetWriter(fw).AddWriter(w)
+			lg.SetErrorWriter(fw).AddErrorWriter(w)
+			c.R.Add("records_with_a_"+front+"_destination_in_front", 1)
+		}
 		desc0 := randomTimestampOptions(r, lg)
 		// a logger is not always in JSON mode from its first record: the same object may have logged in another
 		// format (or in JSON already) before the record that is judged
@@ -231,6 +248,26 @@ func c04main(c *Ctx) {
 		desc["other_flags"], desc["same_logger_logged_before_in"] = otherFlags, []string{"-", "-", "logfmt", "color", "json", "a record that panicked while being formatted (recovered)"}[warm]
 		c.R.Distinct("same_logger_logged_before_in", []string{"-", "-", "logfmt", "color", "json", "a record that panicked while being formatted (recovered)"}[warm])
 		c.R.Add("write_events", int64(len(evs)))
+		if front != "" {
+			// what the recording destination got: the record first, then (failing front destination) the library's own
+			// diagnostic records - each one line of valid JSON without duplicate members, at the Warn severity
+			var own []mon.Event
+			for _, e := range evs {
+				if e.Kind != mon.EvWrite || e.W != "W" {
+					continue
+				}
+				if len(own) > 0 && bytes.Contains(e.Data, []byte(diagText)) {
+					c.R.Add("diagnostic_records_judged", 1)
+					if why := c04diagProblem(e.Data); why != "" {
+						c.R.Violation(idx, "diagnostic-record", "C04/diagnostic-record", why+"\npayload: "+q(clip(string(e.Data), 1500)), desc)
+						return
+					}
+					continue
+				}
+				own = append(own, e)
+			}
+			evs = own
+		}
 		if len(evs) != 1 || evs[0].Kind != mon.EvWrite {
 			c.R.Violation(idx, "one-write", "C04/one-write", fmt.Sprintf("expected exactly one Write, saw %s", fmtEvents(evs)), desc)
 			return
@@ -294,6 +331,24 @@ func pairsFirst(kvs []gen.KV) []any {
 }
 
 type cv struct{ clause, detail string }
+
+// c04diagProblem judges a record the library issued on its own account (the report about a failing destination).
+func c04diagProblem(payload []byte) string {
+	if len(payload) == 0 || payload[len(payload)-1] != '\n' || bytes.Count(payload, []byte{'\n'}) != 1 {
+		return "the library's own diagnostic record is not exactly one line"
+	}
+	n, err := oracle.ParseJSONLine(bytes.TrimSuffix(payload, []byte{'\n'}))
+	if err != nil {
+		return "the library's own diagnostic record is not one valid JSON object with unique members: " + err.Error()
+	}
+	if l := n.Get("level"); l == nil || l.Kind != oracle.JStr || l.Str != slog.WarnLevel.String() {
+		return fmt.Sprintf("the library's own diagnostic record is issued at the Warn severity, its level member reads %s", l.Brief())
+	}
+	if m := n.Get("msg"); m == nil || m.Kind != oracle.JStr || !strings.Contains(m.Str, diagText) {
+		return fmt.Sprintf("the library's own diagnostic record: msg member reads %s", m.Brief())
+	}
+	return ""
+}
 
 func c04check(payload []byte, cs c04case) (out []cv) {
 	if len(payload) == 0 || payload[len(payload)-1] != '\n' {
